@@ -76,10 +76,25 @@ fn check_slice(what: &str, ctx: &str, base: &[u8], got: Option<&[u8]>, want: Opt
 /// Caller-supplied headers over the geometry alphabet, all views.
 struct Crafted;
 impl Crafted {
-    fn dims() -> [u64; 5] {
-        [4, 12, 10, 7, 4]
+    fn dims() -> [u64; 6] {
+        [4, 12, 10, 7, 4, MAGICS.len() as u64]
     }
 }
+/// contents put at the start of the designated range: formats a reader might be tempted to
+/// recognise by content (legacy .zdebug "ZLIB" + big-endian size, zlib / gzip / zstd / xz / ELF /
+/// ar magics, a GNU note header), all-zero and all-ones
+const MAGICS: [&[u8]; 10] = [
+    b"",
+    b"ZLIB\0\0\0\0\0\0\0\x10rest-of-stream",
+    b"\x78\x9c\x01\x02\x00\xfd\xff",
+    b"\x1f\x8b\x08\x00\x00\x00\x00\x00",
+    b"\x28\xb5\x2f\xfd\x00\x58",
+    b"\xfd7zXZ\x00",
+    b"\x7fELF\x02\x01\x01\x00",
+    b"!<arch>\n",
+    b"\0\0\0\0\0\0\0\0\0\0\0\0\0\0\0\0\0\0\0\0\0\0\0\0",
+    b"\xff\xff\xff\xff\xff\xff\xff\xff\xff\xff\xff\xff\xff\xff\xff\xff\xff\xff\xff\xff\xff\xff\xff\xff",
+];
 fn base_image(enc: rl::Enc) -> Vec<u8> {
     let (b, _) = tiny_full(enc, TableOrder::TablesFirst);
     let mut v = b.bytes;
@@ -92,7 +107,7 @@ fn base_image(enc: rl::Enc) -> Vec<u8> {
 }
 impl Space for Crafted {
     fn name(&self) -> String {
-        "caller-supplied SectionHeader / ProgramHeader: offset in {0,1,63,64,L-2,L-1,L,L+1,2^32-1,2^63,2^64-1,L/2} x size in {0,1,2,L-off-1,L-off,L-off+1,2^32-1,2^64-off-1,2^64-off,24} x sh_type in {PROGBITS,NOBITS,STRTAB,REL,RELA,NOTE,DYNAMIC} x flags in {0,COMPRESSED,COMPRESSED|ALLOC,ALLOC} x 4 encodings; p_memsz in {0, filesz+7}; all typed views".into()
+        "caller-supplied SectionHeader / ProgramHeader: offset in {0,1,63,64,L-2,L-1,L,L+1,2^32-1,2^63,2^64-1,L/2} x size in {0,1,2,L-off-1,L-off,L-off+1,2^32-1,2^64-off-1,2^64-off,24} x sh_type in {PROGBITS,NOBITS,STRTAB,REL,RELA,NOTE,DYNAMIC} x flags in {0,COMPRESSED,COMPRESSED|ALLOC,ALLOC} x 4 encodings x contents at the start of the range in {as generated, ZLIB+size, zlib, gzip, zstd, xz, ELF, ar magics, zeros, ones}; p_memsz in {0, filesz+7}; all typed views".into()
     }
     fn size(&self) -> u64 {
         product(&Self::dims())
@@ -103,15 +118,30 @@ impl Space for Crafted {
         let img = base_image(enc);
         let l = img.len() as u64;
         let off = offsets(l)[d[1] as usize];
-        json!({"encoding": enc.name(), "file_len": l, "offset": format!("{:#x}", off), "size": format!("{:#x}", sizes(l, off)[d[2] as usize]), "sh_type": SH_TYPES[d[3] as usize], "sh_flags": SH_FLAGS[d[4] as usize]})
+        json!({"encoding": enc.name(), "file_len": l, "offset": format!("{:#x}", off), "size": format!("{:#x}", sizes(l, off)[d[2] as usize]), "sh_type": SH_TYPES[d[3] as usize], "sh_flags": SH_FLAGS[d[4] as usize], "content_at_range_start": hex(MAGICS[d[5] as usize])})
     }
     fn run(&self, idx: u64, out: &mut Outcome) {
         let d = unmix(idx, &Self::dims());
         let enc = ENCS[d[0] as usize];
-        let img = base_image(enc);
+        let mut img = base_image(enc);
         let l = img.len() as u64;
         let off = offsets(l)[d[1] as usize];
         let size = sizes(l, off)[d[2] as usize];
+        let magic = MAGICS[d[5] as usize];
+        if !magic.is_empty() {
+            // only where it leaves the file's own headers intact (the base image keeps its tables in
+            // front: see tiny_full / TablesFirst)
+            let pristine = img.clone();
+            if (off as usize) < img.len() {
+                let a = off as usize;
+                let n = magic.len().min(img.len() - a);
+                img[a..a + n].copy_from_slice(&magic[..n]);
+            }
+            if img == pristine || ElfBytes::<AnyEndian>::minimal_parse(&img).is_err() {
+                out.count("content_variant_not_applicable");
+                return;
+            }
+        }
         let ty = SH_TYPES[d[3] as usize];
         let flags = SH_FLAGS[d[4] as usize];
         let align = [4u64, 3, 8, 12, 1][((d[1] + d[2]) % 5) as usize];
